@@ -4,17 +4,20 @@ from specs.common import J
 G = "internal/graph"
 
 MODELS_QUICK = ["direct", "wildcard", "union_computed", "userset", "ttu", "exclusion", "intersection", "condition",
-                "inter_excl", "shared_tuples", "userset_flat", "h6"]
-MODELS_ALL = MODELS_QUICK + ["computed_chain", "rec_intersection", "userset_ttu_mix", "ttu_excl", "condition_userset"]
+                "inter_excl", "shared_tuples", "userset_flat", "h6", "condition_userset"]
+MODELS_ALL = MODELS_QUICK + ["computed_chain", "rec_intersection", "userset_ttu_mix", "ttu_excl"]
 
 
 def c01(tier, seed):
     q = tier == "quick"
     jobs = []
+    big = {"userset_ttu_mix"}
     for m in (MODELS_QUICK if q else MODELS_ALL):
-        jobs.append(J(G, "VerifE01Check", model=m, maxcands=12 if q else 16, seed=seed % 7, timeout_ms=60000, max_paths=4000 if q else 40000))
-        if not q:
-            jobs.append(J(G, "VerifE01Check", model=m, maxcands=16, seed=(seed + 3) % 7, nobj=2, timeout_ms=60000, max_paths=40000))
+        # A: every valid tuple of the universe (no leftovers), one subject per type (+ all subjects in thorough)
+        jobs.append(J(G, "VerifE01Check", model=m, maxcands=14 if m in big else 20, invalid=0, subjects="min" if q else "all",
+                      timeout_ms=60000, unwind=64, max_paths=6000 if q else 100000))
+        # B: with invalid leftovers, all subjects (usersets, wildcards), seeded subset of candidates
+        jobs.append(J(G, "VerifE01Check", model=m, maxcands=10 if q else 16, seed=seed % 7, timeout_ms=60000, unwind=64, max_paths=4000 if q else 60000))
     return jobs
 
 
@@ -24,10 +27,10 @@ def c02(tier, seed):
     ms = ["userset", "ttu", "userset_flat", "rec_intersection", "exclusion"] if q else MODELS_ALL
     for m in ms:
         # every strategy assignment (symbolic planner), optimisations on/off, breadth limit 1, repeated request
-        jobs.append(J(G, "VerifE01Check", model=m, maxcands=10 if q else 14, seed=(seed + 1) % 7, repeat=1, timeout_ms=60000, max_paths=6000 if q else 60000))
-        jobs.append(J(G, "VerifE01Check", model=m, maxcands=10 if q else 14, seed=(seed + 2) % 7, breadth=1, timeout_ms=60000, max_paths=6000 if q else 60000))
+        jobs.append(J(G, "VerifE01Check", model=m, maxcands=10 if q else 14, seed=(seed + 1) % 7, repeat=1, timeout_ms=60000, unwind=64, max_paths=6000 if q else 60000))
+        jobs.append(J(G, "VerifE01Check", model=m, maxcands=10 if q else 14, seed=(seed + 2) % 7, breadth=1, timeout_ms=60000, unwind=64, max_paths=6000 if q else 60000))
         if not q:
-            jobs.append(J(G, "VerifE01Check", model=m, maxcands=14, seed=seed % 7, opt=0, timeout_ms=60000, max_paths=60000))
+            jobs.append(J(G, "VerifE01Check", model=m, maxcands=14, seed=seed % 7, opt=0, timeout_ms=60000, unwind=64, max_paths=60000))
     return jobs
 
 
